@@ -83,12 +83,18 @@ def _passthrough_hook(origin, target, params, state):
 PADS = ["{}", "{} ", " {}", " {} ", "\t{}", "{}\n"]
 
 
-def run_entry(style, eol, entry, text, prev_style=None, hook=False, pad=0):
+def run_entry(style, eol, entry, text, prev_style=None, hook=False, pad=0, other=None):
     import gscrib
     cfg_eol, _ = eol_of(eol)
     # the style may be configured with surrounding blanks (the library strips them)
     style_cfg = PADS[pad % len(PADS)].format(style)
     g = gscrib.GCodeBuilder(comment_symbols=prev_style or style_cfg, line_endings=cfg_eol)
+    if other is not None:
+        # ANOTHER builder (other comment style) is created and used after this
+        # one: nothing of its configuration may reach this builder's formatter
+        o = gscrib.GCodeBuilder(comment_symbols=other)
+        o.add_writer(recorder_class()())
+        o.comment("other " + text[:20])
     rec = recorder_class()()
     g.add_writer(rec)
     if hook:
@@ -134,12 +140,14 @@ def check(case):
     if prev == style:
         prev = None
     try:
-        base = run_entry(style, eol, entry, "x", prev, bool(case.get("hook")), case.get("pad", 0))
+        base = run_entry(style, eol, entry, "x", prev, bool(case.get("hook")), case.get("pad", 0),
+                         case.get("other"))
     except Exception as e:
         raise Violation(f"style {style!r}: {entry} with an innocuous comment "
                         f"raised {type(e).__name__}: {e}")
     try:
-        out = run_entry(style, eol, entry, text, prev, bool(case.get("hook")), case.get("pad", 0))
+        out = run_entry(style, eol, entry, text, prev, bool(case.get("hook")), case.get("pad", 0),
+                        case.get("other"))
     except ValueError:
         return "rejected"
     except Exception as e:
@@ -172,6 +180,8 @@ def classes_of(case):
         cl.append("move_hook_registered")
     if case.get("pad"):
         cl.append("style_configured_with_blanks")
+    if case.get("other"):
+        cl.append("another_builder_created_meanwhile")
     if max(t.count("\n") + t.count("\r"), t.count(close) if close else 0) >= 9:
         cl.append("nine_or_more_breaks_or_closers")
     if case.get("prev_style") and case["prev_style"] != case["style"]:
@@ -221,7 +231,8 @@ def strategy():
         "entry": st.sampled_from(ENTRIES), "text": text_for(sty),
         "prev_style": st.one_of(st.none(), st.none(), st.sampled_from(STYLES)),
         "hook": st.sampled_from([False, False, True]),
-        "pad": st.sampled_from([0, 0, 0, 1, 2, 3, 4, 5])}))
+        "pad": st.sampled_from([0, 0, 0, 1, 2, 3, 4, 5]),
+        "other": st.sampled_from([None, None, ";", "(", "/*", "["])}))
 
 
 def run_shard(ctx):
